@@ -54,11 +54,13 @@ def main():
     ok &= show('Trace_OmkmRange', 'range: rejected with the wrong exception', e, ['RejectKind'])
 
     toks = ['alpha', 'beta', 'gamma', 'delta' * 5, 'epsilon', 'zeta' * 6, 'eta', 'theta']
-    wcase = {'kind': 'wrap', 'toks': toks, 'll': 40, 'ml': 60, 'obj': 'list'}
+    wcase = {'kind': 'wrap', 'toks': toks, 'll': 40, 'ml': 60, 'obj': 'list',
+             'widths': [[40, 60], [60, 95]]}      # the same list object wrapped twice
     wev, _, _ = c18.execute_wrap(wcase)
     ok &= show('Trace_CtiWrap', 'wrap: as recorded', wev, [])
     e = copy.deepcopy(wev)
-    e[0]['toks'][0], e[0]['toks'][1] = e[0]['toks'][1], e[0]['toks'][0]
+    for fld in ('toks', 'before', 'after'):
+        e[0][fld][0], e[0][fld][1] = e[0][fld][1], e[0][fld][0]
     ok &= show('Trace_CtiWrap', 'wrap: two tokens swapped', e, ['TokensPreserved'])
     e = copy.deepcopy(wev)
     k = e[0]['out'].index(ord('g'))
@@ -73,6 +75,18 @@ def main():
     e = copy.deepcopy(wev)
     e[0]['raised'] = 'TypeError'
     ok &= show('Trace_CtiWrap', 'wrap: call raised', e, ['Raises'])
+    e = copy.deepcopy(wev)
+    e[0]['after'].append(c18.codes('"""'))          # the call left its closing marker in the caller's list
+    ok &= show('Trace_CtiWrap', 'wrap: value object grew during the call', e, ['InputUntouched'])
+    e = copy.deepcopy(wev)
+    e[1]['before'].append(c18.codes('"""'))         # second call of the history starts from an altered object
+    e[1]['after'].append(c18.codes('"""'))
+    ok &= show('Trace_CtiWrap', 'wrap: 2nd call finds the object altered', e, ['InputUntouched'])
+    e = copy.deepcopy(wev)
+    k = len(e[1]['out']) - 3
+    e[1]['out'][k:k] = c18.codes('""" ')            # ... and writes the stale marker as a token
+    ok &= show('Trace_CtiWrap', 'wrap: 2nd call carries a stale marker token', e,
+               ['Delimited', 'TokensPreserved'])
 
     # a deleted line is caught by the consumed-length check of validate_traces itself;
     # here: an event the spec does not know
